@@ -662,6 +662,11 @@ func runScenario(sc scenario, bs []*c17b.Body, maxBound int, deadline time.Time)
 		if p != nil {
 			sigs["panic-solo:"+bs[bi].Name] = fmt.Sprint(p)
 		}
+		if w := bs[bi].Want; w != "" && p == nil && r != w {
+			sig := "result-differs-from-the-documented-one:" + ev.SigSafe(bs[bi].Name)
+			sigs[sig] = fmt.Sprintf("%s run alone (after other calls in this process) returns %q, the documented result is %q", bs[bi].Name, r, w)
+			o.mismatches = append(o.mismatches, sig)
+		}
 		solo[i] = r
 	}
 	check := func(e *execution) {
